@@ -81,16 +81,31 @@ func (x *Exec) initState(suffix string) *State {
 				s.assume(fct)
 			}
 			f.regs[fv] = v
+			// a renamed captured variable keeps answering to the name it had when the baseline was
+			// accepted (contracts of closures name their captured variables)
+			aliases := []string{fv.Name()}
+			if olds, ok := baselineParamsOf(fnName(x.fn) + "#free"); ok && i < len(olds) && olds[i] != fv.Name() {
+				if _, clash := x.params[olds[i]]; !clash {
+					aliases = append(aliases, olds[i])
+					x.note("captured variable " + olds[i] + " of " + fnName(x.fn) + " was renamed to " + fv.Name() + "; contracts keep using the baseline name")
+				}
+			}
 			// the captured variable: a pointer to a cell (captured by reference) or the value itself
 			x.params["&"+fv.Name()] = v
 			if pt, ok := fv.Type().(*types.Pointer); ok {
 				s.assume("(select Alloc0 " + v.L[0] + ")")
 				s.assume("(not (= " + v.L[0] + " 0))")
 				cell := x.loadLoc(s, &Loc{Kind: LocHeap, Base: v.L[0], Path: typeKey(pt.Elem()), Typ: pt.Elem()})
-				x.params[fv.Name()] = cell
+				for _, a := range aliases {
+					x.params[a] = cell
+					x.params["&"+a] = v
+				}
 				x.inputs[fv.Name()] = cell
 			} else {
-				x.params[fv.Name()] = v
+				for _, a := range aliases {
+					x.params[a] = v
+					x.params["&"+a] = v
+				}
 				x.inputs[fv.Name()] = v
 			}
 		}
@@ -856,6 +871,21 @@ func (x *Exec) checkFrame(s *State, env *Env) {
 		}
 		if _, ok := x.D.sorts[init]; !ok {
 			continue // array created on this path (only fresh objects can be in it)
+		}
+		if ts, tn, field := x.classify(n); ts != nil {
+			base := field
+			for _, suf := range []string{"_t", "_v", "_len", "_c", "_e"} {
+				base = strings.TrimSuffix(base, suf)
+			}
+			_, g := ts.Guarded[base]
+			_, so := ts.SubObjects[base]
+			_, dt := ts.DynType[base]
+			if !g && !so && !dt && !ts.Atomic[base] && !ts.Immutable[base] && !ts.AtomicCell[base] && !ts.Confined[base] {
+				// a field no contract file knows about (added after they were written): no contract
+				// can speak about it, so writing it cannot invalidate what a caller relies on
+				x.note("frame: field " + tn + "." + base + " is not classified in the contract files; writes to it are outside every assigns clause and are not reported")
+				continue
+			}
 		}
 		conds := []string{"(select Alloc0 " + sk + ")", "(not (= " + sk + " 0))"}
 		wild := false
